@@ -5,7 +5,7 @@ from sa.match import holds, same_value
 from sa.build import AnalysisBroken
 from props.common import declref, member_on, field_assigns, share_copy_source, assignments
 
-UNITS = ['src/core/Node.cpp', 'src/main.cpp']
+UNITS = ['src/core/Node.cpp', 'src/main.cpp', 'src/dht/KademliaTable.cpp']
 LEVEL = 'other'
 EXPLANATION = (
     'R-GATE/R-FLOW/R-SIB. receive_chunk and the CLI decrypt_chunk_with_manifest: every effect after decryption (manifest cache '
@@ -307,3 +307,28 @@ def run(ck):
         any(fc.nodes[j].get('n') == 'nonce' and fc.nodes[j]['k'] == 'MemberExpr' for i in origin_chain(fc, r['nonce']) for j in fc.walk(i))
     ck.ob('C11.recon', 'C11.recon/fetch_chunk/record-inputs', rec_ok, fc.loc(r['call']),
           'fetch_chunk decrypts record->data with record->nonce under the requested chunk id')
+
+    # ---- publish_shards: the shard record used by fetch_chunk is always the one just published ------------------
+    PK = ck.prog(['src/dht/KademliaTable.cpp'])
+    ps = PK.fn('ephemeralnet::KademliaTable::publish_shards')
+    ck.touch(ps)
+    from sa.paths import Cfg as _Cfg
+    stores = [i for i in ps.walk() if ps.nodes[i]['k'] == 'CXXOperatorCallExpr' and ps.nodes[i].get('op') == '=' and
+              any(ps.nodes[j].get('m') == 'ephemeralnet::KademliaTable::shard_table_' for j in ps.walk(ps.kids(i)[1]))]
+    stores += [i for i in ps.walk() if ps.nodes[i].get('callee', '').endswith('::insert_or_assign') and
+               ps.receiver(i) is not None and ps.nodes[ps.receiver(i)].get('m') == 'ephemeralnet::KademliaTable::shard_table_']
+    ck.floor('C11.shards', 'shard_table_ stores in publish_shards', len(stores), 1)
+    cfgp = _Cfg.of(ps)
+    wit = cfgp.must_pass_from((cfgp.entry, -1), lambda e: any(e == s_ or ps.is_in(s_, e) and ps.nodes[e]['k'] == 'ExprWithCleanups' for s_ in stores))
+    ck.ob('C11.shards', 'C11.shards/always-replaces', wit is None, ps.loc(),
+          'every path through publish_shards stores the new record (a kept stale record would make fetch_chunk reconstruct another key)', wit)
+    rec_d = None
+    for i in ps.walk():
+        if ps.nodes[i]['k'] == 'VarDecl' and 'KeyShardRecord' in ps.nodes[i].get('t', ''):
+            rec_d = ps.nodes[i]['d']
+    fa = field_assigns(ps, rec_d) if rec_d is not None else {}
+    KR = 'ephemeralnet::KademliaTable::KeyShardRecord::'
+    okf = all(len(fa.get(KR + f_, [])) == 1 and any(ps.nodes[j]['k'] == 'DeclRefExpr' and ps.nodes[j].get('d') == ps.params[k_]['d']
+                                                    for j in ps.walk(fa[KR + f_][0][0]))
+              for f_, k_ in (('shards', 1), ('threshold', 2), ('total_shares', 3)))
+    ck.ob('C11.shards', 'C11.shards/record-from-arguments', okf, ps.loc(), 'the stored record takes shards, threshold and total_shares from the arguments')
